@@ -277,11 +277,8 @@ pub fn run_part_from(
     first_run: u64,
 ) -> Result<PartReport, String> {
     let part = &check.parts[part_idx];
-    let runs = runs_override.unwrap_or(if tier_thorough {
-        part.runs_thorough
-    } else {
-        part.runs_quick
-    });
+    let scale: f64 = std::env::var("VERIF_SCALE").ok().and_then(|v| v.parse().ok()).unwrap_or(1.0);
+    let runs = runs_override.unwrap_or(((if tier_thorough { part.runs_thorough } else { part.runs_quick }) as f64 * scale).max(1.0) as u64);
     let t0 = Instant::now();
     let next = Arc::new(AtomicU64::new(first_run));
     // Lowest run index at which a violation was found (u64::MAX = none).
@@ -593,7 +590,7 @@ pub fn write_replay(v: &Value, prop: &str, seed: u64, run: u64) -> String {
 pub fn write_evidence(prop: &str, v: &Value) -> Result<(), String> {
     let dir = std::env::var("VERIF_EVIDENCE_DIR").unwrap_or_else(|_| format!("{}/evidence", verif_dir()));
     std::fs::create_dir_all(&dir).map_err(|e| e.to_string())?;
-    let path = format!("{dir}/{prop}.json");
+    let path = format!("{dir}/{prop}{}.json", std::env::var("VERIF_EVIDENCE_SUFFIX").unwrap_or_default());
     let tmp = format!("{path}.tmp");
     std::fs::write(&tmp, serde_json::to_string_pretty(v).unwrap()).map_err(|e| e.to_string())?;
     std::fs::rename(&tmp, &path).map_err(|e| e.to_string())
